@@ -30,6 +30,15 @@ def _post(ctx, est, r, k, d, X2d):
     ctx.require('transform_shape_is_n_by_k', ctx.cond(np.shape(T) == (np.shape(X2d)[0], k)))
     M = est.get_mahalanobis_matrix()
     ctx.require('mahalanobis_matrix_is_d_by_d', ctx.cond(np.shape(M) == (d, d)))
+    if np.shape(M) == (d, d):
+      # whatever the numerics returned (arbitrary arrays of the documented shape): the induced matrix is symmetric and its quadratic form
+      # is the squared norm of the embedded vector, hence PSD -- for every direction v
+      v = ctx.real('vq', d)
+      q = sum(M[i, j] * v[i] * v[j] for i in range(d) for j in range(d))
+      Lv = [sum(L[r_, j] * v[j] for j in range(d)) for r_ in range(k)]
+      sos = sum(x * x for x in Lv)
+      ctx.require('induced_matrix_is_symmetric', ctx.and_(*[ctx.eq(M[i, j], M[j, i]) for i in range(d) for j in range(i)]))
+      ctx.require('induced_matrix_quadratic_form_is_a_squared_norm', ctx.eq(q, sos))
 
 
 def skeleton_case(name, opts):
